@@ -27,10 +27,11 @@ package updog
 
 //@ pred LRUInv(c *LRUCache) := c != nil && c.entries != nil && c.lruList != nil && ListInv(c.lruList) && CountersOK(c.metrics)
 //@   && (forall k uint64 :: (k in c.entries) ==> (c.entries[k] in c.lruList.members) && item(c.entries[k]).key == k)
-//@   && (forall e *list.Element :: (e in c.lruList.members) ==> typeof(e.Value) == ptrtag(lruCacheItem) && item(e) != nil
+//@   && (forall e *list.Element :: (e in c.lruList.members) ==> typeof(e.Value) == ptrtag(lruCacheItem) && item(e) != nil && allocated(item(e))
 //@          && (item(e).key in c.entries) && c.entries[item(e).key] == e)
 //@   && (forall e *list.Element :: (e in c.lruList.members) ==> item(e).bm != nil && item(e).size == sizeBytes(item(e).bm.view))
 //@   && c.curSize == sum(c.lruList.members, costmap())
+//@   && (forall e *list.Element :: (e in c.lruList.members) ==> 0 <= costmap()[e] && costmap()[e] <= sum(c.lruList.members, costmap()))
 
 //@ func [C07] (*LRUCache).Get(c, key) (bm, found)
 //@   requires LRUInv(c)
@@ -45,3 +46,132 @@ package updog
 //@   ensures [C07] count_hit: c.metrics.CacheHit != nil ==> c.metrics.CacheHit.count == old(c.metrics.CacheHit.count) + (found ? 1 : 0)
 //@   ensures [C07] count_miss: c.metrics.CacheMiss != nil ==> c.metrics.CacheMiss.count == old(c.metrics.CacheMiss.count) + (found ? 0 : 1)
 //@   ensures [C07] count_put: c.metrics.PutCall != nil ==> c.metrics.PutCall.count == old(c.metrics.PutCall.count)
+
+//@ pure newcost(bm *roaring.Bitmap) int := sizeBytes(bm.view) + lruCacheItemSize + listElementSize
+//@ pure sizemap() refint reads list.Element.Value, lruCacheItem.size
+//@ axiom sizemap_def: forall e *list.Element :: sizemap()[e] == item(e).size
+//@ pure oldcost(c *LRUCache, key uint64) int := (key in c.entries) ? costmap()[c.entries[key]] : 0
+
+//@ func [C07] (*LRUCache).Put(c, key, bm)
+//@   requires LRUInv(c) && bm != nil
+//@   requires nowrap: c.curSize + newcost(bm) <= 18446744073709551615
+//@   modifies c.entries[*]; c.curSize; c.lruList.members; c.lruList.stamp; c.lruList.clock; c.metrics.PutCall.count
+//@   modifies heap lruCacheItem.bm at ((key in c.entries) ? item(c.entries[key]) : nil)
+//@   modifies heap lruCacheItem.size at ((key in c.entries) ? item(c.entries[key]) : nil)
+//@   ensures [C07] inv: LRUInv(c)
+//@   ensures [C07] bound: c.curSize <= c.maxSize || c.lruList.members == rempty()
+//@   ensures [C07] bytes_bound: sum(c.lruList.members, sizemap()) <= c.maxSize
+//@   ensures [C07] fits_retrievable: newcost(bm) <= c.maxSize ==> (key in c.entries) && item(c.entries[key]).bm == bm
+//@   ensures [C07] stored_value: (key in c.entries) ==> item(c.entries[key]).bm == bm
+//@   ensures [C07] no_eviction_when_fits: old(c.curSize - oldcost(c, key)) + newcost(bm) <= c.maxSize ==>
+//@              (forall k uint64 :: (k in c.entries) <==> ((k in old(c.entries)) || k == key))
+//@   ensures [C07] survivors: forall k uint64 :: (k in c.entries) && k != key ==> (k in old(c.entries)) && c.entries[k] == old(c.entries[k])
+//@              && item(c.entries[k]).bm == old(item(c.entries[k]).bm) && c.lruList.stamp[c.entries[k]] == old(c.lruList.stamp[c.entries[k]])
+//@   ensures [C07] put_is_use: (key in c.entries) ==> (forall k uint64 :: (k in c.entries) && k != key ==> c.lruList.stamp[c.entries[k]] < c.lruList.stamp[c.entries[key]])
+//@   ensures [C07] lru_order: forall k2 uint64, k3 uint64 :: (k2 in old(c.entries)) && !(k2 in c.entries) && k2 != key && (k3 in c.entries) && k3 != key
+//@              ==> old(c.lruList.stamp[c.entries[k2]]) < old(c.lruList.stamp[c.entries[k3]])
+//@   ensures [C07] count_put: c.metrics.PutCall != nil ==> c.metrics.PutCall.count == old(c.metrics.PutCall.count) + 1
+//@   ensures [C07] max_unchanged: c.maxSize == old(c.maxSize)
+//@   loop 1
+//@     invariant LRUInv(c)
+//@     invariant c.curSize <= old(c.curSize - oldcost(c, key)) + newcost(bm)
+//@     invariant ((key in c.entries) && item(c.entries[key]).bm == bm && item(c.entries[key]).size == sizeBytes(bm.view)
+//@                 && (forall e *list.Element :: (e in c.lruList.members) ==> c.lruList.stamp[e] <= c.lruList.stamp[c.entries[key]]))
+//@               || c.lruList.members == rempty()
+//@     invariant newcost(bm) <= c.maxSize ==> (key in c.entries)
+//@     invariant forall k uint64 :: (k in c.entries) && k != key ==> (k in old(c.entries)) && c.entries[k] == old(c.entries[k])
+//@                 && c.lruList.stamp[c.entries[k]] == old(c.lruList.stamp[c.entries[k]])
+//@     invariant (forall k uint64 :: (k in old(c.entries)) ==> (k in c.entries)) || old(c.curSize - oldcost(c, key)) + newcost(bm) > c.maxSize
+//@     invariant forall k2 uint64, k3 uint64 :: (k2 in old(c.entries)) && !(k2 in c.entries) && k2 != key && (k3 in c.entries) && k3 != key
+//@                 ==> old(c.lruList.stamp[c.entries[k2]]) < old(c.lruList.stamp[c.entries[k3]])
+//@     invariant forall k uint64 :: (k in c.entries) ==> (k in old(c.entries)) || k == key
+//@     decreases rcard(c.lruList.members)
+
+// ---------------------------------------------------------------------------------------------------------------
+// Cache interface (C03/C04): closed world of cache implementations — nullCache and LRUCache.
+
+//@ pred CacheValid(c Cache) := c != nil && (typeof(c) == ptrtag(LRUCache) || typeof(c) == ptrtag(nullCache))
+//@   && (typeof(c) == ptrtag(LRUCache) ==> LRUInv(c.(*LRUCache)))
+
+//@ interface Cache.Get(c, key) (bm, found)
+//@   requires CacheValid(c)
+//@   modifies heap list.List.stamp; heap list.List.clock; heap CounterMetric.count
+//@   ensures CacheValid(c)
+//@   ensures found ==> bm != nil
+
+//@ interface Cache.Put(c, key, bm)
+//@   requires CacheValid(c) && bm != nil
+//@   modifies heap list.List.stamp; heap list.List.clock; heap list.List.members; heap CounterMetric.count; heap LRUCache.curSize
+//@   modifies heap map[uint64]*list.Element; heap dom[uint64]*list.Element; heap lruCacheItem.bm; heap lruCacheItem.size
+//@   ensures CacheValid(c)
+
+//@ func [C03,C04] (*nullCache).Get(c, key) inherits Cache.Get
+//@   ensures [C03] !result1 && result0 == nil
+//@ func [C03,C04] (*nullCache).Put(c, key, bm) inherits Cache.Put
+
+// ---------------------------------------------------------------------------------------------------------------
+// query.go — evaluation layer
+
+//@ ghost field HistogramMetric.obs int
+//@ interface HistogramMetric.Observe(m, v)
+//@   modifies m.obs
+
+//@ pure wf(x Expression) bool reads ExprNot.Expr, ExprAnd.Exprs, ExprOr.Exprs, []Expression
+//@ axiom wf_nonnil: forall x Expression :: { wf(x) } wf(x) ==> x != nil && iref(x) != nil
+//@    && (typeof(x) == ptrtag(ExprEqual) || typeof(x) == ptrtag(ExprNot) || typeof(x) == ptrtag(ExprAnd) || typeof(x) == ptrtag(ExprOr))
+//@ axiom wf_not: forall x Expression :: { wf(x) } typeof(x) == ptrtag(ExprNot) && wf(x) ==> wf(x.(*ExprNot).Expr)
+//@ axiom wf_and: forall x Expression, k int :: { wf(x), heap("[]Expression")[arr(x.(*ExprAnd).Exprs)][k] } typeof(x) == ptrtag(ExprAnd) && wf(x)
+//@    && off(x.(*ExprAnd).Exprs) <= k && k < off(x.(*ExprAnd).Exprs) + len(x.(*ExprAnd).Exprs) ==> wf(heap("[]Expression")[arr(x.(*ExprAnd).Exprs)][k])
+//@ axiom wf_or: forall x Expression, k int :: { wf(x), heap("[]Expression")[arr(x.(*ExprOr).Exprs)][k] } typeof(x) == ptrtag(ExprOr) && wf(x)
+//@    && off(x.(*ExprOr).Exprs) <= k && k < off(x.(*ExprOr).Exprs) + len(x.(*ExprOr).Exprs) ==> wf(heap("[]Expression")[arr(x.(*ExprOr).Exprs)][k])
+
+//@ pred SchemaOK(s *schema) := s != nil && (forall k string :: (k in s.Columns) ==> s.Columns[k] != nil)
+//@ pred IdxInv(idx *Index) := idx != nil && SchemaOK(idx.schema) && idx.metrics != nil && idx.values != nil && CacheValid(idx.cache)
+
+//@ interface colGetter.GetCol(g, key) (bm, err)
+//@   requires g != nil
+
+//@ interface Expression.eval(e, idx) (bm, err)
+//@   requires wf(e) && IdxInv(idx)
+//@   modifies heap list.List.stamp; heap list.List.clock; heap list.List.members; heap CounterMetric.count; heap LRUCache.curSize
+//@   modifies heap map[uint64]*list.Element; heap dom[uint64]*list.Element; heap lruCacheItem.bm; heap lruCacheItem.size
+//@   ensures IdxInv(idx)
+//@   ensures (err == nil) ==> bm != nil
+//@   ensures (err != nil) ==> bm == nil
+
+//@ interface Expression.cacheKey(e) (result)
+//@   requires wf(e)
+
+//@ func [C14,C04,C03] (*ExprEqual).eval(e, idx) inherits Expression.eval
+//@ func [C14,C04,C03] (*ExprNot).eval(e, idx) inherits Expression.eval
+//@   assumes rows32: idx.nextRowID <= 4294967295
+//@ func [C14,C04,C03] (*ExprAnd).eval(e, idx) inherits Expression.eval
+//@   loop 1
+//@     invariant IdxInv(idx) && wf(e)
+//@     invariant forall j idx(elems) :: elems[j] != nil
+//@     invariant arr(elems) == nil || !(arr(elems) in old($alloc))
+//@     invariant 0 <= $i && $i <= len(e.Exprs)
+//@     decreases len(e.Exprs) - $i
+//@ func [C14,C04,C03] (*ExprOr).eval(e, idx) inherits Expression.eval
+//@   loop 1
+//@     invariant IdxInv(idx) && wf(e)
+//@     invariant forall j idx(elems) :: elems[j] != nil
+//@     invariant arr(elems) == nil || !(arr(elems) in old($alloc))
+//@     invariant 0 <= $i && $i <= len(e.Exprs)
+//@     decreases len(e.Exprs) - $i
+
+//@ pure idxOf(k string, v string) uint64
+//@ trusted func getValueIndex(k, v) (result)
+//@   ensures result == idxOf(k, v)
+
+//@ func [C03] (*ExprEqual).cacheKey(e) inherits Expression.cacheKey
+//@ func [C03] (*ExprNot).cacheKey(e) inherits Expression.cacheKey
+//@   bv
+//@ func [C03] (*ExprAnd).cacheKey(e) inherits Expression.cacheKey
+//@   bv
+//@   loop 1
+//@     invariant wf(e) && 0 <= $i && $i <= len(e.Exprs)
+//@ func [C03] (*ExprOr).cacheKey(e) inherits Expression.cacheKey
+//@   bv
+//@   loop 1
+//@     invariant wf(e) && 0 <= $i && $i <= len(e.Exprs)
